@@ -18,13 +18,18 @@ inductive Val
   | int (n : Int)
   | bool (b : Bool)
   | str (s : String)
+  | slice (id : Nat)        -- a reference to slice storage number `id` (used by `Sem2`, never by the scalar fragment)
 deriving Repr, DecidableEq
+
+/-- the name of the array that holds slice number `id` -/
+def sliceName (id : Nat) : String := "_dv" ++ Nat.repr id
 
 /-- how a value is spelled in the target (`Itoa` is the identity on spellings) -/
 def Val.render : Val → String
   | .int n => toString n
   | .bool b => boolStr b
   | .str s => s
+  | .slice id => sliceName id
 
 abbrev Env := String → Option Val
 
@@ -32,8 +37,9 @@ def Env.set (env : Env) (x : String) (v : Val) : Env := fun y => if y = x then s
 
 def inRange (n : Int) : Bool := decide (-9223372036854775808 ≤ n) && decide (n < 9223372036854775808)
 
-/-- string literals whose characters bash leaves alone between double quotes once `\` and `"` are escaped -/
-def plainLit (s : String) : Bool := s.toList.all (fun c => c != '$' && c != '`')
+/-- string literals whose characters bash leaves alone between double quotes once `\` and `"` are escaped; ASCII
+    only, so that a character is a byte and lengths and indices mean the same in Go, in bash and here -/
+def plainLit (s : String) : Bool := s.toList.all (fun c => c != '$' && c != '`' && c.toNat < 128)
 
 def binVal (vt : ValueType) (op : String) (a b : Val) : Option Val :=
   if vt.isSlice then none else
